@@ -1,5 +1,286 @@
-"""C03 spec -> code: scripted environment (placeholder, filled in below)."""
+"""C03 spec -> code: behaviours of the exhaustive Driver graph replayed with a scripted environment.
+
+TLC dumps the state graph of Driver.tla for a small configuration (one function, two points + the NaN
+point, budgets 1..2, optimizer and DOE).  Every selected transition is completed into a behaviour that
+ends in `postrun` (or `crashed`), and the behaviour is forced on the real gemseo objects:
+
+* the environment's requests `Ask(n, p)` become the script of a tiny optimization library (ScriptedOpt,
+  a BaseOptimizationLibrary whose `_run` just issues the requests), a DOE becomes a CustomDOE with the
+  samples of the behaviour;
+* the outcomes of the original callables (`ok | nan | raise`) are scripted per (function, kind, point);
+* `NewIter("MaxTime")` is produced by a fake clock substituted for `time` in base_driver_library
+  (test double), `AlgoReturn("Other")` by the script raising a plain TerminationCriterion;
+* `SeedEmpty(p)` is `database.store(x_p, {})` before the execution.
+
+After execute() the real objects are projected on the abstract state (database keys in order, names per
+key, evaluation counter, stop class, result / x_opt, listeners left, exception or not) and compared with
+the final state computed by TLC.  x_opt is compared with the set of values BuildResult allows.
+"""
+from __future__ import annotations
+
+from collections import deque
+
+import numpy as np
+
+from ..core import Graph, MachineryError
+from . import c03_rec as R
+
+COORD = {0: (float("nan"), float("nan")), 1: (1.0, 1.0), 2: (0.0, 0.5), 3: (-1.0, -1.5)}
+
+
+def graph_cfg():
+    from .c03 import model_cfg
+
+    return model_cfg(points=2, nfuncs=1, maxexec=1, maxn=2, nxs="{9}", kkts="{FALSE}", invs=["Budget"])
+
+
+def make_library(grad: bool):
+    from gemseo.algos.opt.base_optimization_library import BaseOptimizationLibrary
+    from gemseo.algos.opt.base_optimization_library import OptimizationAlgorithmDescription
+    from gemseo.algos.opt.base_gradient_based_algorithm_settings import BaseGradientBasedAlgorithmSettings
+    from gemseo.algos.opt.base_optimizer_settings import BaseOptimizerSettings
+    from gemseo.algos.stop_criteria import TerminationCriterion
+    from pydantic import Field
+
+    bases = (BaseOptimizerSettings, BaseGradientBasedAlgorithmSettings) if grad else (BaseOptimizerSettings,)
+
+    class Script_Settings(*bases):  # noqa: N801
+        _TARGET_CLASS_NAME = "SCRIPT"
+        script: list = Field(default_factory=list)
+
+    class ScriptedOpt(BaseOptimizationLibrary):
+        ALGORITHM_INFOS = {
+            "SCRIPT": OptimizationAlgorithmDescription(
+                algorithm_name="SCRIPT", internal_algorithm_name="SCRIPT", library_name="harness",
+                handle_equality_constraints=True, handle_inequality_constraints=True,
+                require_gradient=grad, Settings=Script_Settings)
+        }
+
+        def _run(self, problem, **settings):
+            for step in settings["script"]:
+                if step[0] == "return":
+                    if step[1] == "Other":
+                        raise TerminationCriterion
+                    return "script done", 0
+                _, fn, kind, xy = step
+                f = problem.objective if fn == problem.objective.name else \
+                    next(c for c in problem.constraints if c.name == fn)
+                x = np.array(xy)
+                if self._normalize_ds and not np.isnan(x).any():
+                    x = problem.design_space.normalize_vect(x)
+                (f.evaluate if kind == "val" else f.jac)(x)
+            return "script exhausted", 0
+
+    return ScriptedOpt("SCRIPT")
+
+
+def fdict(v):
+    """A TLA+ function value as a dict (TLC prints a function with domain 1..n as a sequence)."""
+    if isinstance(v, dict):
+        return dict(v)
+    return {i + 1: x for i, x in enumerate(v)}
+
+
+class FakeClock:
+    def __init__(self, fire_at):
+        self.calls = -1
+        self.fire_at = fire_at
+
+    def __call__(self):
+        self.calls += 1          # call 0: start of the run; call k: k-th new iteration seen by the driver
+        return 1e9 if self.fire_at and self.calls >= self.fire_at else 0.0
+
+
+def build(outcomes, rec: R.Rec, x0):
+    """A one-function problem whose callables follow the scripted outcomes."""
+    from gemseo.algos.design_space import DesignSpace
+    from gemseo.algos.optimization_problem import OptimizationProblem
+    from gemseo.core.mdo_functions.mdo_function import MDOFunction
+
+    ds = DesignSpace()
+    ds.add_variable("x", 2, lower_bound=-2.0, upper_bound=2.0, value=np.array(COORD[x0 or 1]))
+    problem = OptimizationProblem(ds)
+    inv = {v: k for k, v in COORD.items() if k}
+
+    def body(kind):
+        def call(x):
+            p = inv.get(tuple(float(t) for t in x))
+            todo = outcomes.get(("f", kind, p), [])
+            o = todo.pop(0) if todo else "ok"
+            if o == "raise":
+                raise R.Boom("scripted")
+            if kind == "val":
+                return float("nan") if o == "nan" else (x[0] - 0.5) ** 2 + (x[1] + 0.25) ** 2
+            g = np.array([2 * (x[0] - 0.5), 2 * (x[1] + 0.25)])
+            return g * float("nan") if o == "nan" else g
+        return call
+
+    problem.objective = MDOFunction(rec.wrap("f", "val", body("val")), "f", jac=rec.wrap("f", "jac", body("jac")))
+    rec.attach(problem, ["f"])
+    return problem
+
+
+def completion(g: Graph):
+    """For every state the next edge of a shortest path to a final state (postrun / crashed)."""
+    rev = {}
+    for k, (s, d, a, args) in enumerate(g.edges):
+        rev.setdefault(d, []).append(k)
+    nxt = {}
+    q = deque(s for s, st in g.states.items() if st["phase"] in ("postrun", "crashed"))
+    done = set(q)
+    while q:
+        d = q.popleft()
+        for k in rev.get(d, ()):
+            s = g.edges[k][0]
+            if s not in done and g.edges[k][2] != "SeedEmpty":
+                done.add(s)
+                nxt[s] = k
+                q.append(s)
+    return nxt
+
+
+def replay(ck, g: Graph, path, norm):
+    """Force one behaviour (list of edge indices from the initial state) on gemseo; compare final states."""
+    import gemseo.algos.base_driver_library as bdl
+    from gemseo.algos.doe.factory import DOELibraryFactory
+
+    seeds, script, outcomes, cfg, fire_at, drv_calls = [], [], {}, None, 0, 0
+    for k in path:
+        s, d, a, args = g.edges[k]
+        src, dst = g.states[s], g.states[d]
+        if a == "SeedEmpty":
+            seeds.append(args[0])
+        elif a == "Execute":
+            cfg = args[0]
+        elif a == "Next":                                   # Ask(n, p) of the environment
+            if s == d:                                      # served from the database: no state change
+                stored = fdict(src["outs"])
+                p, n = next((q, sorted(v)[0]) for q, v in sorted(stored.items()) if v)
+            elif dst["req"]["st"] == "call":
+                n, p = dst["req"]["n"], dst["req"]["p"]
+            elif dst["stop"] == "DesvarIsNan":
+                n, p = ("f", "val"), 0
+            else:                                           # MaxIter: any point whose entry is empty
+                stored = fdict(src["outs"])
+                p = next(q for q in (1, 2, 3) if not stored.get(q))
+                n = ("f", "val")
+            script.append(("ask", n[0], n[1], COORD[p]))
+        elif a == "OrigCall":
+            r = src["req"]
+            outcomes.setdefault((r["n"][0], r["n"][1], r["p"]), []).append(args[0])
+        elif a == "NewIter" and src["nil"][src["req"]["k"] - 1] == "drv":
+            drv_calls += 1
+            if args[0] == "MaxTime":
+                fire_at = drv_calls
+        elif a == "AlgoReturn":
+            script.append(("return", args[0]))
+    final = g.states[g.edges[path[-1]][1]]
+    allowed_x = {g.edges[k][3][0] for k in path if g.edges[k][2] == "BuildResult"}
+    for k in path:
+        if g.edges[k][2] == "BuildResult":
+            allowed_x |= {g.edges[j][3][0] for j in g.out.get(g.edges[k][0], ()) if g.edges[j][2] == "BuildResult"}
+    rec = R.Rec()
+    problem = build(outcomes, rec, cfg["x0"])
+    for p in seeds:
+        problem.database.store(np.array(COORD[p]), {})
+    st = dict(normalize_design_space=norm, max_time=1.0, enable_progress_bar=False,
+              reset_iteration_counters=bool(cfg["reset"]), store_jacobian=bool(cfg["storeJac"]))
+    if cfg["kind"] == "opt":
+        lib = make_library(bool(cfg["grad"]))
+        st.update(max_iter=int(cfg["N"]), script=script, stop_crit_n_x=int(cfg["nx"]))
+    else:
+        lib = DOELibraryFactory().create("CustomDOE")
+        st.update(samples=np.array([COORD[p] for p in cfg["samples"]]), eval_jac=bool(cfg["grad"]))
+    clock = FakeClock(fire_at)
+    saved = bdl.time
+    bdl.time = clock
+    try:
+        res, exc = R.execute(rec, lib, cfg["kind"], st, grad=bool(cfg["grad"]), nx=int(cfg["nx"]))
+    finally:
+        bdl.time = saved
+    end = rec.events[-1]
+    db = problem.database
+    impl = {
+        "keys": [rec.pid(k.wrapped_array) for k in db],
+        "outs": {rec.pid(k.wrapped_array): sorted(tuple(n) for n in rec.names(k.wrapped_array)) for k in db},
+        "cur": int(problem.evaluation_counter.current),
+        "crashed": bool(end["crashed"]),
+        "stop": end["cause"], "hasResult": bool(end["result"]), "nni": end["nni"],
+    }
+    # the recorder interned the points in order of appearance: translate to the model's ids
+    to_model = {rec.pids[R.Rec._key(np.array(c))]: m for m, c in COORD.items() if m and R.Rec._key(np.array(c)) in rec.pids}
+    impl["keys"] = [to_model.get(p, -p) for p in impl["keys"]]
+    impl["outs"] = {to_model.get(p, -p): v for p, v in impl["outs"].items()}
+    xopt = to_model.get(end["xopt"], -end["xopt"]) if end["xopt"] else 0
+    spec = {
+        "keys": list(final["keys"]),
+        "outs": {p: sorted(tuple(n) for n in v) for p, v in fdict(final["outs"]).items()},
+        "cur": final["cur"], "crashed": final["phase"] == "crashed",
+        "stop": final["stop"], "hasResult": bool(final["hasResult"]), "nni": len(final["nil"]),
+    }
+    if spec["crashed"]:
+        for f in ("stop", "hasResult", "nni"):
+            spec.pop(f), impl.pop(f)
+    elif impl["stop"] == "Other" or spec["stop"] == "Other":
+        pass
+    diff = {f: (spec[f], impl[f]) for f in spec if spec[f] != impl[f]}
+    if not spec["crashed"] and not diff and xopt not in allowed_x:
+        diff["xopt"] = (sorted(allowed_x), xopt)
+    case = {"cfg": cfg, "seeds": seeds, "script": [list(s) for s in script], "outcomes": {str(k): v for k, v in outcomes.items()},
+            "max_time_at_iteration": fire_at, "normalize": norm,
+            "actions": [g.edges[k][2] + (str(g.edges[k][3]) if g.edges[k][2] != "Execute" else "") for k in path]}
+    return diff, case, exc
 
 
 def run(ck, rng, validate):
-    return
+    ck.tlc("Driver", graph_cfg(), workers=4, timeout=900, dump=True, count=False, coverage=False)
+    g = Graph(ck.work / "Driver.dot")
+    if not g.init or len(g.edges) < 1000:
+        raise MachineryError("Driver graph dump too small")
+    par = g.bfs_tree()
+    nxt = completion(g)
+    # target edges: everything that is a decision of gemseo or of the environment
+    targets = [k for k, e in enumerate(g.edges)
+               if e[2] in ("Next", "OrigCall", "NewIter", "AskOwn", "Store", "NextSample", "AlgoReturn", "BuildResult",
+                           "Execute", "PostRun")
+               and e[0] in par and (e[1] in nxt or g.states[e[1]]["phase"] in ("postrun", "crashed"))]
+    rng.shuffle(targets)
+    budget = 6000 if ck.thorough else 220
+    n = 0
+    seen = set()
+    for k in targets:
+        if n >= budget:
+            break
+        path = g.path_to(g.edges[k][0], par) + [k]
+        cur = g.edges[k][1]
+        while g.states[cur]["phase"] not in ("postrun", "crashed"):
+            if cur not in nxt:
+                path = None
+                break
+            path.append(nxt[cur])
+            cur = g.edges[nxt[cur]][1]
+        if not path or not any(g.edges[j][2] == "Execute" for j in path):
+            continue
+        key = tuple(path)
+        if key in seen:
+            continue
+        seen.add(key)
+        n += 1
+        norm = bool(n % 2)
+        diff, case, exc = replay(ck, g, path, norm)
+        if n <= 2:
+            ck.sample({"scripted": case})
+        if diff:
+            cfg = case["cfg"]
+            stop = g.states[g.edges[path[-1]][1]]["stop"]
+            ck.violation("ScriptedReplay", {"kind": cfg["kind"], "algo": "SCRIPT" if cfg["kind"] == "opt" else "CustomDOE",
+                                            "normalize": norm, "fields": sorted(diff), "stop": stop,
+                                            "exception": type(exc).__name__ if exc is not None else "",
+                                            "detail": repr(exc)[:60] if exc is not None else ""},
+                         dict(case, spec_vs_impl={f: list(v) for f, v in diff.items()},
+                              traceback="".join(__import__("traceback").format_exception(exc)[-8:]) if exc is not None else ""))
+        else:
+            ck.traces += 1
+    ck.extra["scripted_behaviours_replayed"] = n
+    ck.extra["scripted_graph_states"] = len(g.states)
+    ck.extra["scripted_graph_edges"] = len(g.edges)
